@@ -172,6 +172,8 @@ def snap(w):
     s = w.snapshot(with_stats=True)
     led = sum(1 for e in w.kernel.log if e[1] in ('spawn', 'signal'))
     hooks = {x.name: sorted(x.hooks) for x in w.arb.watchers}
+    # which exclusive operation holds the slot (hooked state): a refused request must not free or take it
+    hooks['<exclusive-slot>'] = w.arb._exclusive_running_command
     return s, led, hooks
 
 
